@@ -420,3 +420,26 @@ def closed_classification(rep, r, rule, cfg):
             rep.ok(rule, where, '%s present, unconditional, before the first solve %s' % (k, cfg), got=allowed[k].core())
         elif not any(o.status != 'discharged' and o.rule == rule and cfg in o.desc for o in rep.obs):
             rep.fail(rule, where, '%s is present before the first solve %s' % (k, cfg), got='absent', want=allowed[k].core(), construct=k + ' absent')
+
+
+def domain_changes(r):
+    """stores / calls that change the domain of an LP variable AFTER it was created (x.upBound = 0, x.lowBound = .., x.cat = ..,
+    x.bounds(..), x.fixValue()): the rules read variable domains from the creating call only  ->  [(event, text)]"""
+    out = []
+    for ev in r.events:
+        e = ev.eff
+        if ev.kind in ('store', 'augstore') and e.target[0] == 'attr' and e.target[2] in ('upBound', 'lowBound', 'cat'):
+            out.append((ev, '%s = %s' % (show(e.target)[:60], show(e.value)[:30])))
+    for e, ctx in iter_effects(r.effs):
+        if e.kind == 'expr' and e.term[0] == 'call' and e.term[1][0] == 'attr' and e.term[1][2] in ('bounds', 'fixValue', 'setInitialValue', 'unfixValue'):
+            out.append((e, show(e.term)[:80]))
+    return out
+
+
+def check_domains_fixed(rep, r, rule, cfg):
+    ch = domain_changes(r)
+    if ch:
+        ev, txt = ch[0]
+        rep.fail(rule, ev.where, 'the domain of an LP variable is the one it is created with %s' % cfg, got=txt, want='bounds and category given to LpVariable(...) only',
+                 construct='LP variable domain changed after creation: ' + txt.split(' = ')[0].split('.')[-1], loc=ev.loc)
+    return not ch
